@@ -124,6 +124,14 @@ def run(seed=0, tier='quick', hints=None, broken=False):
             check_resample(c['cls'], c, case, viol)
             evals += 1
             seen.add((c['cls'], shape))
+    # CropAndPad, every axis pattern once (volumes large enough for the crops)
+    for rep in range(1 if tier == 'quick' else 12):
+        for c in S.crop_and_pad_sweep(rng):
+            shape = tuple(rng.sample([5, 6, 7, 8, 9, 10], 3))
+            case = {'shape': list(shape), 'bboxes': S.random_boxes(rng, shape), 'seed': R.pick_seed(rng)}
+            check_lattice('CropAndPad', [c], case, viol)
+            evals += 1
+            seen.add(('CropAndPad-sweep', repr(c['args'].get('px', c['args'].get('percent')))))
     for _ in range(n * 2):
         case = RC.gen_case(rng)
         check_rotation(case, viol)
